@@ -78,6 +78,9 @@ pub(crate) fn convert_list(node: SvgNode, aid: AId, state: &converter::State) ->
     if let Some(text) = node.attribute::<&str>(aid) {
         let mut num_list = Vec::new();
         for length in svgtypes::LengthListParser::from(text).flatten() {
+            if !(length.number as f32).is_finite() {
+                return None;
+            }
             num_list.push(convert_user_length(length, node, aid, state));
         }
 
